@@ -67,10 +67,32 @@ thread_local! {
     static POOL: RefCell<Vec<Vec<Lang>>> = RefCell::new((0..8).map(|_| Vec::new()).collect());
 }
 
+thread_local! {
+    /// while set, every store gets a newly constructed language object and none is returned to the pool: state kept
+    /// inside a `Lang` (the stemmer's scratch buffer) then starts from scratch for every store, as the statements about
+    /// "a freshly built store" mean it
+    static FRESH_LANGS: std::cell::Cell<bool> = std::cell::Cell::new(false);
+}
+/// Run `f` with language pooling switched off on this thread.
+pub fn with_fresh_langs<T>(f: impl FnOnce() -> T) -> T {
+    let before = FRESH_LANGS.with(|c| c.replace(true));
+    let r = catch_unwind(AssertUnwindSafe(f));
+    FRESH_LANGS.with(|c| c.set(before));
+    match r {
+        Ok(v) => v,
+        Err(e) => std::panic::resume_unwind(e),
+    }
+}
 pub fn take_lang(l: L) -> Lang {
+    if FRESH_LANGS.with(|c| c.get()) {
+        return l.make();
+    }
     POOL.with(|p| p.borrow_mut()[l as usize].pop()).unwrap_or_else(|| l.make())
 }
 pub fn give_lang(l: L, lang: Lang) {
+    if FRESH_LANGS.with(|c| c.get()) {
+        return;
+    }
     POOL.with(|p| p.borrow_mut()[l as usize].push(lang));
 }
 /// Borrow a pooled language object for pure tokeniser / normaliser calls.
